@@ -287,6 +287,17 @@ Section Restore.
     destruct (ttl_left (c_now c) e) as [x|]; destruct tti' as [d|]; cbn [omin ole]; try exact I; lia.
   Qed.
 
+  (* ... whatever time_to_live / time_to_idle the restoring builder has: every entry of the
+     restored cache comes from a live entry of the original with the same key, value and
+     cost, and has exactly that entry's TTL lifetime left (none if it had none) *)
+  Theorem restore_ttl_any_builder e' :
+    In e' (concat (maps c')) ->
+    exists e, In e L /\ kvc e' = kvc e /\ ttl_left now' e' = ttl_left (c_now c) e.
+  Proof.
+    intros H. destruct (restored_origin e' H) as [e [He ->]]. exists e.
+    split; [exact He|]. split; [apply conv_kvc|apply restore_ttl; exact He].
+  Qed.
+
   Theorem restore_cap : c_cap c' = c_cap c.
   Proof. reflexivity. Qed.
 End Restore.
